@@ -45,6 +45,13 @@ def extra(binary, build, tier, rng):
     halving probability down to an expected count of 2500 (so the wedges, the base strip and the tails beyond R each get their own cells);
     alarm only beyond a chi-square bound of error probability 1e-12"""
     from .stat_oracle import run_statd
+    # the table clause, independently of Lean: ordinate = density at the abscissa, for all 2 x 257 entries of the current source
+    from .zig_table_oracle import check_tables
+    bad, n_checked = check_tables()
+    for tab, i, lit, dens, err, pdf in bad[:3]:
+        yield {"kind": "oracle", "build": build, "request": "table entry %s[%d] of src/distr/ziggurat_tables.rs" % (tab, i), "impl": lit, "model": dens,
+               "oracle": "%s[%d] = %s is not the density %s = %s at the tabulated abscissa (absolute difference %s)" % (tab, i, lit, pdf, dens, err)}
+    yield {"kind": "count", "what": "table-entries-checked", "n": n_checked}
     N = 100_000_000 if tier == "quick" else 1_500_000_000
     M = 40_000_000 if tier == "quick" else 300_000_000
     gens = ["xoshiro", "splitmix", "wyrand", "chacha8"]
